@@ -37,6 +37,10 @@ def c15_scenarios(ctx: Ctx) -> List[Dict[str, Any]]:
         wk: Dict[str, Any] = {"focus": focus} if focus else {}
         sc.append({"id": f"gen{base + k}", "src": "gen", "seed": 51000 + base + k, "steps": ctx.pick(36, 60), "world_kwargs": wk,
                    "mix": ["builtin", "builtin+counter", "counter+builtin", "adv+builtin+counter"][k % 4]})
+    # a controller that draws from the global random stream (seeded once by the user after loading)
+    for k in range(ctx.pick(4, 24)):
+        sc.append({"id": f"dice{base + k}", "src": "gen", "seed": 51500 + base + k, "steps": ctx.pick(36, 60),
+                   "world_kwargs": {"focus": "dispatch"} if k % 2 else {}, "mix": ["dice+builtin", "builtin+dice"][k % 2]})
     return sc
 
 
@@ -46,6 +50,9 @@ def splits(rng: random.Random, n: int) -> List[int]:
     for c in cuts + [n]:
         out.append(c - prev)
         prev = c
+    # a co-simulation driver that follows a finer external clock also makes calls of ZERO steps: they do nothing
+    for _ in range(rng.randint(0, 2)):
+        out.insert(rng.randrange(len(out) + 1), 0)
     return out
 
 
